@@ -201,6 +201,10 @@ def run_property(prop, tier='quick', explain=None, quiet=False, write=True):
         nobl = sum(1 for o in obligations if o.status != INFO)
         p(f'OBLIGATIONS {nobl} discharged={nd} undecided={nu} violated={len(viol)} '
           f'rules={len(per_rule)} functions={len(functions)} tier={tier}')
+        if os.environ.get('VERIF_DUMP_KEYS'):    # maintenance: list every obligation (engine regression comparison)
+            with open(os.environ['VERIF_DUMP_KEYS'], 'a', encoding='utf-8') as f:
+                for o in obligations:
+                    f.write(f'{o.status}\t{o.key}\n')
         for o in known_hit:
             p(f'KNOWN-FINDING: property={prop} {o.key} :: {known_keys[o.key].get("what", o.why)}')
         vdir = os.path.join(VERIF, 'evidence', 'violations')
